@@ -52,7 +52,11 @@ PROPS["C10"] = dict(
                "after_split / split_range / flip / degree elevation / affine transformation commute with sampling exactly, "
                "and the derivative is the first-order term of the sampled curve (explicit remainder), for ALL control "
                "points and parameters (ring identities). The Gallina definitions follow the operation order of the Rust "
-               "source and are compared with lyon_geom (f64) for exact equality on the exactness domain. Length "
+               "source: 35 functions (sample, x, y, derivative, dx, dy, flip, split_range, split, before_split, after_split "
+               "of the three segment types, to_cubic, to_quadratic) are ALSO regenerated from the source text on every run "
+               "by the translator tools/rs2coq.py (Gen/Functions.v) and proved equal to the models (Proofs/Gen_Geom.v), and "
+               "the split / flip / coordinate theorems are restated on the generated functions; the models "
+               "are compared with lyon_geom (f64) for exact equality on the exactness domain. Length "
                "additivity is transcendental: validated numerically per run (not a theorem, except for lines).",
     level_note="Trusted: Coq kernel; model fidelity by differential runs on integer control points / dyadic parameters "
                "(there IEEE arithmetic is exact); rounding on general inputs and arc trigonometry are not covered by "
@@ -74,7 +78,9 @@ PROPS["C12"] = dict(
     level_text="Theorems (Props/C12.v) over the rationals: LineSegment::intersection_t as coded returns Some(t,u) exactly "
                "when the two segments are non-parallel, share no endpoint and meet at a point, and then (t,u) are that "
                "point's parameters (sound, complete, unique, symmetric); parallel/overlapping and endpoint-sharing "
-               "segments return None; same for segment x infinite line. Tied to the code by an EXHAUSTIVE comparison "
+               "segments return None; same for segment x infinite line. Tied to the code twice: intersection_t and "
+               "line_intersection_t are regenerated from line.rs on every run (tools/rs2coq.py, Gen/Functions.v), proved "
+               "equal to the model, and soundness / completeness are restated on the generated function; and by an EXHAUSTIVE comparison "
                "on all ordered pairs of lattice segments (4x4 lattice quick, 5x5 thorough) + random lattices. "
                "Curve queries (line x quadratic/cubic, cubic x cubic) are not modelled: every returned parameter is "
                "checked to denote a common point and constructed transversal crossings must be reported "
@@ -301,7 +307,9 @@ PROPS["C06"] = dict(
                "for a clipped miter, plus the tolerance); Coq decides the inner claim exactly on one line inside up to 12 "
                "slabs between consecutive vertex ordinates and the outer claim for every triangle; a grid of sample points "
                "is evaluated directly as well.",
-    level_note="Coverage is decided for all points of the lines scanned, not for the whole plane (no slab lift); that "
+    level_note="Coverage is decided for all points of the lines scanned and, for the small strokes submitted to the "
+               "whole-plane checker (at most 6 triangles and 3 must polygons; 16 per quick run, 96 per thorough run: "
+               "Checker/CoverPlane.v, C06_plane_sub_sound), at EVERY point of the plane; that "
                "the stroker passes on every input is explored, not proved. Must polygons are snapped to a 2^-10 grid inside "
                "the ideal band (the margin accounts for it).",
     technique="Coq-verified exact line / triangle checkers + exploration",
@@ -310,6 +318,7 @@ PROPS["C06"] = dict(
     props_module="Props.C06",
     harness=[dict(sub="c06", profile="debug")],
     result_kind="cover",
+    shard_kinds={"c06plane_cases": "plane"},
     rule="polylines: open with 2-6 points, segment length 4-13 widths, turn within +-135 degrees, or closed jittered regular "
          "3-6-gons of radius 6-13 widths; coordinates on a 1/8 grid; width 0.5 / 1 / 2; join x start cap x end cap; miter limit "
          "1 / 2 / 4; tolerance 0.02 / 0.1; entry points tessellate_path, tessellate, tessellate_with_ids, builder; cases with "
